@@ -3,6 +3,7 @@ import VaxisModel.Model.Render
 import VaxisModel.Spec.Display
 import VaxisModel.Spec.Expected
 import VaxisModel.Spec.Tokenize
+import VaxisModel.Lemmas.RenderGate
 
 /-! Driver for C01 (also used by C07 gating and C11 observation). Stateful; one case = one Vaxis
 session on the fake console. Lines (fields separated by spaces, strings in hex, `-` = empty):
@@ -97,6 +98,14 @@ def gridDiff (next : Grid) (exp got : List (List DCell)) : Option String :=
     | _, _ => some "row count differs"
   rowDiff 0 exp got
 
+/-- C07 on the implementation: the first token of the frame that is neither baseline vocabulary nor
+    allowed by the capability set. -/
+def gateViolation (caps : Caps) (toks : List Tok) : Option String :=
+  (toks.find? fun k => !(match k with
+      | .other _ => false            -- a frame writes nothing outside the renderer vocabulary
+      | k => VaxisModel.Lemmas.RenderGate.allowedTok caps k)).map fun k =>
+    s!"FAIL not advertised: the frame writes {tokStr k} although the capability set does not allow it"
+
 def verdict (s : St) (next : Grid) (t : Term) : String :=
   match t.bad with
   | some why => s!"FAIL terminal-specific behaviour relied on: {why}"
@@ -140,7 +149,7 @@ def frame (s : St) (enc : String) (implHex : String) (forceRefresh : Bool) : St 
     let canon := match firstDiff mtoks itoks 0 with
       | none => let k := s!"toks={mtoks.length}"; (k, k)
       | some (i, a, b) => (s!"M@{i}:{a}", s!"I@{i}:{b}")
-    let v := if s.dead then "-" else verdict s next t1
+    let v := if s.dead then "-" else (gateViolation s.caps itoks).getD (verdict s next t1)
     let s' := { s with last := last', refresh := false, cl := s.cn, shapeL := s.shapeN, term := { t1 with bad := none },
                        dead := s.dead || (v != "ok" && v != "-") }
     (s', s!"{canon.1}\t{canon.2}\t{v}")
